@@ -1,38 +1,66 @@
 #!/usr/bin/env python3
-"""Development-time tool: apply a seeded change to /repo, run checks, undo.
-usage: seedtest.py <seed-dir> <check-id> [<check-id> ...] [--tier quick|thorough]
+"""Development-time tool: run checks against a seeded change.
+usage: seedtest.py <seed-dir> <check-id> [<check-id> ...] [--tier quick|thorough] [--inplace]
+
+Default: the patch is applied to a scratch git worktree of /repo's HEAD under /tmp (removed afterwards)
+and the checks run with VERIF_REPO / VERIF_SCRATCH pointing there, so several seeded changes can be
+tested at the same time and /repo, /verif/evidence and /verif/replays are never touched.
+--inplace: apply to /repo itself, run the registered commands as they are, undo.
 Prints one line per check: CAUGHT (exit 1 + VIOLATION line) / MISSED (exit 0)."""
-import subprocess, sys, os, json, time
+import subprocess, sys, os, json, time, shutil, tempfile
 ROOT = os.path.dirname(os.path.dirname(os.path.abspath(__file__)))
-args = [a for a in sys.argv[1:] if not a.startswith("--")]
+argv = sys.argv[1:]
+inplace = "--inplace" in argv
+argv = [a for a in argv if a != "--inplace"]
 tier = "quick"
-if "--tier" in sys.argv:
-    tier = sys.argv[sys.argv.index("--tier") + 1]
-    args.remove(tier)
-seed, checks = os.path.abspath(args[0]), args[1:]
+if "--tier" in argv:
+    i = argv.index("--tier")
+    tier = argv[i + 1]
+    del argv[i:i + 2]
+seed, checks = os.path.abspath(argv[0]), argv[1:]
 patch = os.path.join(seed, "patch.diff")
-st = subprocess.run(["git", "-C", "/repo", "status", "--porcelain"], capture_output=True, text=True).stdout.strip()
-assert st == "", "/repo working tree is not clean:\n" + st
-r = subprocess.run(["git", "-C", "/repo", "apply", patch], capture_output=True, text=True)
-if r.returncode != 0:
-    print("PATCH DOES NOT APPLY:", r.stderr[:500]); sys.exit(2)
+env = dict(os.environ)
+if inplace:
+    repo = "/repo"
+    st = subprocess.run(["git", "-C", "/repo", "status", "--porcelain"], capture_output=True, text=True).stdout.strip()
+    assert st == "", "/repo working tree is not clean:\n" + st
+    scratch = None
+else:
+    scratch = tempfile.mkdtemp(prefix="seedtest-", dir="/tmp")
+    repo = scratch + "/repo"
+    subprocess.run(["git", "-C", "/repo", "worktree", "add", "--detach", "-f", repo, "HEAD"], check=True, capture_output=True)
+    env["VERIF_REPO"] = repo
+    env["VERIF_SCRATCH"] = scratch + "/out"
+r = subprocess.run(["git", "-C", repo, "apply", patch], capture_output=True, text=True)
 results = {}
 try:
+    if r.returncode != 0:
+        print("PATCH DOES NOT APPLY:", r.stderr[:500]); sys.exit(2)
     for c in checks:
         t = time.time()
-        p = subprocess.run(["python3", f"{ROOT}/bin/vcheck.py", c, tier], capture_output=True, text=True, cwd=ROOT, timeout=7200)
+        p = subprocess.run(["python3", f"{ROOT}/bin/vcheck.py", c, tier], capture_output=True, text=True, cwd=ROOT, timeout=7200, env=env)
         viol = [l for l in p.stdout.splitlines() if l.startswith("VIOLATION")]
         verdict = "CAUGHT" if (p.returncode == 1 and viol) else ("MISSED" if p.returncode == 0 else f"ERROR rc={p.returncode}")
         replay = viol[0].split("replay=")[1].split()[0] if viol else ""
-        kind = ""
+        kind, summary = "", ""
         if replay and os.path.exists(replay):
             try:
-                kind = json.load(open(replay)).get("kind", "")
+                rj = json.load(open(replay))
+                kind = rj.get("kind", "")
+                summary = json.dumps({k: rj[k] for k in ("stream", "scenario", "explain", "broken") if k in rj})[:400]
             except Exception:
                 pass
-        results[c] = {"verdict": verdict, "line": viol[0] if viol else "", "kind": kind, "seconds": round(time.time() - t, 1)}
-        print(c, tier, verdict, kind, viol[0] if viol else "", f"({time.time()-t:.0f}s)", flush=True)
+        if verdict.startswith("ERROR"):
+            summary = (p.stdout + p.stderr)[-600:]
+        results[c] = {"verdict": verdict, "line": viol[0] if viol else "", "kind": kind, "seconds": round(time.time() - t, 1), "summary": summary}
+        print(os.path.basename(seed), c, tier, verdict, kind, viol[0] if viol else "", f"({time.time()-t:.0f}s)", flush=True)
 finally:
-    subprocess.run(["git", "-C", "/repo", "checkout", "--", "."], check=True)
-    subprocess.run(["git", "-C", "/repo", "clean", "-fdq", "--", "."], check=False)
-json.dump(results, open(os.path.join(seed, f"result_{tier}.json"), "w"), indent=1)
+    if inplace:
+        subprocess.run(["git", "-C", "/repo", "checkout", "--", "."], check=True)
+        subprocess.run(["git", "-C", "/repo", "clean", "-fdq", "--", "."], check=False)
+    else:
+        subprocess.run(["git", "-C", "/repo", "worktree", "remove", "--force", repo], check=False, capture_output=True)
+        shutil.rmtree(scratch, ignore_errors=True)
+        subprocess.run(["git", "-C", "/repo", "worktree", "prune"], check=False)
+if results:
+    json.dump(results, open(os.path.join(seed, f"result_{tier}.json"), "w"), indent=1)
